@@ -630,6 +630,67 @@ def u_do_fit(root):
     return eng
 
 
+
+def u_do_fit_proof(root):
+    """the same typestate for ANY number of iterative refits: ghost field #bracket on the fit (0 = nothing frozen, 1 / 3 = frozen for a first / later pass,
+    2 / 4 = minimised inside that bracket, -1 = protocol broken), advanced by the contracts of _pre_fit_iteration, the fitter's do_fit and
+    _post_fit_iteration; loop invariant of the refit loop: #bracket == 0"""
+    eng = fit_engine(root, {"FitBase": {"#bracket": INT, "#fits": INT}})
+    eng.missing_attr_raises = True
+    eng.loop_havoc = [("#bracket", "int", ""), ("#fits", "int", "")]
+    Bk = lambda vw, st: vw.f(st, vw.self, "#bracket").e
+    first_of = lambda vw: vw.eng.truth(vw.args["first_fit"]) if "first_fit" in vw.args else z3.BoolVal(False)
+    eng.lib["kc"] = lambda e, st, a, kw, node: VNum(z3.Int("max_iterations")) if a[-1].s == "max_iterations" else VNum(z3.Real("convergence_limit"))
+    eng.lib["float"] = lambda e, st, a, kw, node: a[0]
+    eng.lib["abs"] = lambda e, st, a, kw, node: VNum(z3.If(a[0].real() >= 0, a[0].real(), -a[0].real()))
+    eng.lib["is_diagonal"] = lambda e, st, a, kw, node: VBool(z3.Bool("total_cov_mat_is_diagonal"))
+    for cls in ("XYFit", "IndexedFit", "HistFit", "UnbinnedFit"):
+        pre = mk(eng, "FitBase", "_pre_fit_iteration", modifies=[("#bracket", "int", "")])
+        pre.ensures.append(lambda vw: [Bk(vw, vw.post) == z3.If(Bk(vw, vw.pre) == 0, z3.If(first_of(vw), z3.IntVal(1), z3.IntVal(3)), z3.IntVal(-1))])
+        post_ = mk(eng, "FitBase", "_post_fit_iteration", modifies=[("#bracket", "int", "")])
+        post_.ensures.append(lambda vw: [Bk(vw, vw.post) == z3.If(Bk(vw, vw.pre) == z3.If(first_of(vw), z3.IntVal(2), z3.IntVal(4)), z3.IntVal(0), z3.IntVal(-1))])
+        mk(eng, cls, "_set_data_as_model_ref", result=lambda vw: VNone())
+        mk(eng, cls, "_iterative_fits_needed", result=lambda vw: VBool(z3.Bool("iterative_fits_needed")))
+        mk(eng, cls, "_second_fit_needed", result=lambda vw: VBool(z3.Bool("second_fit_needed")))
+        mk(eng, "FitBase", "has_errors", "getter", result=lambda vw: VBool(z3.Bool("has_errors")))
+        mk(eng, "FitBase", "total_cov_mat", "getter", result=lambda vw: Val("total_cov_mat"))
+        mk(eng, "FitBase", "cost_function_value", "getter", result=lambda vw: VNum(z3.FreshReal("cost")))
+        mk(eng, "FitBase", "parameter_names", "getter", result=lambda vw: VTuple([VStr(x) for x in NAMES]))
+        mk(eng, "FitBase", "_update_parameter_formatters", result=lambda vw: VNone())
+        mk(eng, "FitBase", "get_result_dict", result=lambda vw: Val("result_dict"))
+        if cls == "XYFit":
+            mk(eng, "XYFit", "y_model", "getter", result=lambda vw: Val("y_model"))
+        else:
+            mk(eng, cls, "model", "getter", result=lambda vw: Val("model"))
+        c = Contract(cls, "do_fit")
+        c.requires.append(lambda vw: z3.And(Bk(vw, vw.pre) == 0, vw.f(vw.pre, vw.self, "#fits").e == 0, z3.Int("max_iterations") >= 0))
+        c.loops[0] = lambda e, s_: z3.And(e.read_field(s_, s_.locals["self"], "#bracket").e == 0, e.read_field(s_, s_.locals["self"], "#fits").e >= 1)
+
+        def post(vw):
+            if vw.flow == "raise":
+                return [("no exception", z3.BoolVal(False))]
+            return [("for ANY number of refits: every freeze was followed by exactly one minimisation and then by the matching unfreeze (same first_fit flag); nothing is left frozen", Bk(vw, vw.post) == 0),
+                    ("at least one minimisation ran", vw.f(vw.post, vw.self, "#fits").e >= 1),
+                    ("results loaded from a file no longer shadow the live ones", z3.BoolVal(isinstance(vw.f(vw.post, vw.self, "_loaded_result_dict"), VNone)))]
+        c.ensures.append(post)
+
+        def init(e, st, me_):
+            def minimise(e_, st_, a, kw):
+                b_ = e_.read_field(st_, me_, "#bracket").e
+                e_.write_field(st_, me_, "#bracket", VNum(z3.If(b_ == 1, z3.IntVal(2), z3.If(b_ == 3, z3.IntVal(4), z3.IntVal(-1)))))
+                e_.write_field(st_, me_, "#fits", VNum(e_.read_field(st_, me_, "#fits").e + 1))
+                return VNum(z3.FreshReal("runtime"))
+            e.write_field(st, me_, "_nexus", RecNexus())
+            e.write_field(st, me_, "_fitter", Part("fitter", {"do_fit": Fn(minimise)}))
+            e.write_field(st, me_, "_cost_function", Part("cost_function", {"name": VStr("chi2"), "needs_errors": VBool(z3.Bool("needs_errors"))}))
+            e.write_field(st, me_, "_cost_function_pointwise", VNone())
+            e.write_field(st, me_, "_fit_param_names_bad_default", VPySet(frozenset()))
+            e.write_field(st, me_, "_loaded_result_dict", VDict({"did_fit": VBool(z3.BoolVal(True))}))
+            return {"asymmetric_parameter_errors": VBool(z3.BoolVal(False))}
+        eng.verify(cls, "do_fit", None, init, contract=c, tag=f"[{cls}, any number of refits]")
+    return eng
+
+
 def show_bool(v):
     return "True" if z3.is_true(z3.simplify(v.e)) else "False" if z3.is_false(z3.simplify(v.e)) else str(v.e)
 
@@ -693,51 +754,54 @@ def u_reads(root):
             if any(isinstance(d, ast.Name) and d.id == "abstractmethod" or isinstance(d, ast.Attribute) and d.attr == "abstractmethod" for d in f.decorator_list):
                 continue
             target = cls if cls != "FitBase" else "IndexedFit"          # base-class getters are executed on a concrete subclass
-            c = Contract(target, f.name, "getter")
+            for loaded in (False, True):          # live results / results loaded from a file shadowing them
+                if loaded and f.name not in ("parameter_errors", "parameter_cov_mat", "parameter_cor_mat", "asymmetric_parameter_errors", "did_fit", "errors_valid"):
+                    continue
+                c = Contract(target, f.name, "getter")
 
-            def post(vw, name=f.name):
-                trace = fx(vw)
-                sets = [x for x in trace if x[0] == "set"]
-                bad_sets = [x for x in sets if not (x[1] == "model" and x[2] in ALLOWED_PUSH)]
-                pushes = [x for x in sets if x[1] == "model" and x[2] in ALLOWED_PUSH]
-                current = lambda x: isinstance(x[3], Val) and (x[3].tag == "node:parameter_values" or x[3].tag.startswith("container.")) or isinstance(x[3], VTuple)
-                calls = [c_ for c_ in vw.post.ghost.get("node_calls", ())]
-                mutating_calls = [x for x in trace if x[0] == "call" and (x[1], x[2]) not in PURE_CALLS]
-                out = [("no attribute of the container, fitter, cost function or formatters is assigned", z3.BoolVal(not bad_sets)),
-                       ("the parametric model only receives the CURRENT parameter values of the graph / the x values of the container (lazy push)", z3.BoolVal(all(current(x) for x in pushes))),
-                       ("no node is marked, frozen, unfrozen or assigned", z3.BoolVal(not calls)), ("the only methods called on the parts are queries (cost / goodness-of-fit evaluation, parameter lookup, source lookup, model derivative): no source is added, disabled or enabled, the minimizer is not reset or run", z3.BoolVal(not mutating_calls))]
-                same = []
-                for fld, ty in SCHEMA["FitBase"].items():
-                    if fld in ALLOWED_FLAGS:
-                        continue
-                    a_, b_ = vw.f(vw.pre, vw.self, fld), vw.f(vw.post, vw.self, fld)
-                    same.append((a_.e == b_.e) if ty == BOOL else z3.BoolVal(same_object(a_, b_)))
-                out.append(("no attribute of the fit itself is assigned (the parts it holds are the same objects)", z3.And(same)))
-                return out
-            c.ensures.append(post)
+                def post(vw, name=f.name):
+                    trace = fx(vw)
+                    sets = [x for x in trace if x[0] == "set"]
+                    bad_sets = [x for x in sets if not (x[1] == "model" and x[2] in ALLOWED_PUSH)]
+                    pushes = [x for x in sets if x[1] == "model" and x[2] in ALLOWED_PUSH]
+                    current = lambda x: isinstance(x[3], Val) and (x[3].tag == "node:parameter_values" or x[3].tag.startswith("container.")) or isinstance(x[3], VTuple)
+                    calls = [c_ for c_ in vw.post.ghost.get("node_calls", ())]
+                    mutating_calls = [x for x in trace if x[0] == "call" and (x[1], x[2]) not in PURE_CALLS]
+                    out = [("no attribute of the container, fitter, cost function or formatters is assigned", z3.BoolVal(not bad_sets)),
+                           ("the parametric model only receives the CURRENT parameter values of the graph / the x values of the container (lazy push)", z3.BoolVal(all(current(x) for x in pushes))),
+                           ("no node is marked, frozen, unfrozen or assigned", z3.BoolVal(not calls)), ("the only methods called on the parts are queries (cost / goodness-of-fit evaluation, parameter lookup, source lookup, model derivative): no source is added, disabled or enabled, the minimizer is not reset or run", z3.BoolVal(not mutating_calls))]
+                    same = []
+                    for fld, ty in SCHEMA["FitBase"].items():
+                        if fld in ALLOWED_FLAGS:
+                            continue
+                        a_, b_ = vw.f(vw.pre, vw.self, fld), vw.f(vw.post, vw.self, fld)
+                        same.append((a_.e == b_.e) if ty == BOOL else z3.BoolVal(same_object(a_, b_)))
+                    out.append(("no attribute of the fit itself is assigned (the parts it holds are the same objects)", z3.And(same)))
+                    return out
+                c.ensures.append(post)
 
-            def init(e, st, me_):
-                e.write_field(st, me_, "_nexus", RecNexus())
-                e.write_field(st, me_, "_fitter", Part("fitter", {"fixed_parameters": VDict({"a": VNum(z3.Real("fixed_a"))})}))
-                e.write_field(st, me_, "_data_container", Part("container"))
-                e.write_field(st, me_, "_param_model", Part("model", {"ndf": VNum(z3.Int("model_ndf")), "get_matching_errors": Fn(lambda e_, st_, a, kw: VDict({}))}))
-                e.write_field(st, me_, "_cost_function", Part("cost_function", {"arg_names": VTuple([VStr("data"), VStr("model")]), "add_determinant_cost": VBool(z3.Bool("add_determinant_cost")), "errors_valid": VBool(z3.Bool("cf_errors_valid")),
-                                                                                 "needs_errors": VBool(z3.Bool("needs_errors"))}))
-                e.write_field(st, me_, "_cost_function_pointwise", Part("pointwise", {"arg_names": VTuple([VStr("data"), VStr("model")])}))
-                e.write_field(st, me_, "_model_function", Part("model_function"))
-                e.write_field(st, me_, "_fit_param_constraints", VTuple([Part("constraint0", {"extra_ndf": VNum(z3.Int("extra_ndf0"))})]))
-                e.write_field(st, me_, "_fit_param_names", VTuple([VStr("a"), VStr("b")]))
-                e.write_field(st, me_, "_fit_param_names_bad_default", VPySet(frozenset()))
-                e.write_field(st, me_, "_loaded_result_dict", VNone())
-                e.write_field(st, me_, "_dynamic_error_algorithm", VStr("nonlinear"))
-                return {}
-            n0 = len(eng.obligations)
-            try:
-                eng.verify(target, f.name, "getter", init, contract=c, tag=f"[{cls}]")
-                analysed.append(f"{cls}.{f.name}")
-            except Unsupported as ex:
-                del eng.obligations[n0:]
-                skipped.append(f"{cls}.{f.name}: {ex}")
+                def init(e, st, me_, loaded=loaded):
+                    e.write_field(st, me_, "_nexus", RecNexus())
+                    e.write_field(st, me_, "_fitter", Part("fitter", {"fixed_parameters": VDict({"a": VNum(z3.Real("fixed_a"))})}))
+                    e.write_field(st, me_, "_data_container", Part("container"))
+                    e.write_field(st, me_, "_param_model", Part("model", {"ndf": VNum(z3.Int("model_ndf")), "get_matching_errors": Fn(lambda e_, st_, a, kw: VDict({}))}))
+                    e.write_field(st, me_, "_cost_function", Part("cost_function", {"arg_names": VTuple([VStr("data"), VStr("model")]), "add_determinant_cost": VBool(z3.Bool("add_determinant_cost")), "errors_valid": VBool(z3.Bool("cf_errors_valid")),
+                                                                                     "needs_errors": VBool(z3.Bool("needs_errors"))}))
+                    e.write_field(st, me_, "_cost_function_pointwise", Part("pointwise", {"arg_names": VTuple([VStr("data"), VStr("model")])}))
+                    e.write_field(st, me_, "_model_function", Part("model_function"))
+                    e.write_field(st, me_, "_fit_param_constraints", VTuple([Part("constraint0", {"extra_ndf": VNum(z3.Int("extra_ndf0"))})]))
+                    e.write_field(st, me_, "_fit_param_names", VTuple([VStr("a"), VStr("b")]))
+                    e.write_field(st, me_, "_fit_param_names_bad_default", VPySet(frozenset()))
+                    e.write_field(st, me_, "_loaded_result_dict", VNone())
+                    e.write_field(st, me_, "_dynamic_error_algorithm", VStr("nonlinear"))
+                    return {}
+                n0 = len(eng.obligations)
+                try:
+                    eng.verify(target, f.name, "getter", init, contract=c, tag=f"[{cls}{', results loaded from a file' if loaded else ''}]")
+                    analysed.append(f"{cls}.{f.name}")
+                except Unsupported as ex:
+                    del eng.obligations[n0:]
+                    skipped.append(f"{cls}.{f.name}: {ex}")
     eng.extraction_notes = getattr(eng, "extraction_notes", []) + [f"read-only properties executed: {len(analysed)}; not executed (construct outside the supported subset): {skipped}"]
     eng.lemma(f"at least 60 public properties were executed ({len(analysed)})", [], z3.BoolVal(len(analysed) >= 60))
     return eng
@@ -806,4 +870,4 @@ def u_readback(root):
 
 def units(root):
     return [Unit("_init_nexus registry of the four fit types", u_registry), Unit("uncertainty sources: container -> fit -> graph", u_sources), Unit("data replacement", u_data), Unit("parameter constraints", u_constraints), Unit("parameter mutators", u_parameters),
-            Unit("public read-only properties: frame", u_reads), Unit("MinimizerIMinuit.minimize reads results back from the back end", u_readback, bounded="2 parameters (the write-back loop is unrolled); cached / uncached values and uncertainties at entry"), Unit("freeze / unfreeze protocol and node lists", u_freeze), Unit("do_fit typestate (balanced brackets)", u_do_fit, bounded="iterative refits unrolled to at most 2 passes (the loop body is one bracket); freeze lists, flags and cost kinds enumerated")]
+            Unit("public read-only properties: frame", u_reads), Unit("MinimizerIMinuit.minimize reads results back from the back end", u_readback, bounded="2 parameters (the write-back loop is unrolled); cached / uncached values and uncertainties at entry"), Unit("freeze / unfreeze protocol and node lists", u_freeze), Unit("do_fit typestate for any number of refits (ghost bracket state, loop invariant)", u_do_fit_proof), Unit("do_fit typestate (balanced brackets)", u_do_fit, bounded="iterative refits unrolled to at most 2 passes (the loop body is one bracket); freeze lists, flags and cost kinds enumerated")]
